@@ -6,6 +6,7 @@ import (
 	"context"
 	"fmt"
 	"github.com/form3tech-oss/f1/v2/internal/trigger/api"
+	"github.com/form3tech-oss/f1/v2/pkg/f1"
 	"sort"
 	"strconv"
 	"strings"
@@ -95,6 +96,9 @@ func TestC02Pool(t *testing.T) {
 	defer o.Close()
 	r := kit.NewRand(kit.Seed() + 2)
 	n := kit.N(250, 3000)
+	for i := 0; i < kit.N(3, 20); i++ {
+		burstHistory(o, r)
+	}
 	for i := 0; i < n; i++ {
 		switch r.Intn(3) {
 		case 0:
@@ -140,6 +144,38 @@ func sequentialHistory(o *kit.Out, r *kit.Rand) {
 	}
 	tot := stats.Total()
 	emit(o, ob, requested, int64(tot.DroppedIterationCount), false, 0, nw, 0, "sequential")
+}
+
+// a very large tick is superseded while the workers are held, then triggering stops at once and
+// the held iterations finish: when the pool reports completion every one of the superseded
+// requests has been reported dropped (tens of thousands of records, taken right before the end)
+func burstHistory(o *kit.Out, r *kit.Rand) {
+	nw := int(kit.Pick(r, 1, 1, 2, 4))
+	ob := &obs{live: map[*f1testing.T]bool{}}
+	release := make(chan struct{})
+	m, pool, stats := newPool(nw, 0, func(t *f1testing.T) {
+		ob.enter(t)
+		<-release
+		ob.leave(t)
+	})
+	ctx, cancel := context.WithCancel(context.Background())
+	wctx := pool.Start(ctx)
+	big := int(r.Range(20000, 300000))
+	pool.Trigger(wctx, big)
+	deadline := time.Now().Add(5 * time.Second)
+	for ob.started.Load() < int64(nw) && time.Now().Before(deadline) {
+		time.Sleep(50 * time.Microsecond)
+	}
+	last := int(r.Range(0, 3))
+	pool.Trigger(wctx, last) // supersedes big - nw pending requests
+	cancel()
+	close(release)
+	if !waitDone(m, 30*time.Second) {
+		o.Fail("pool-not-complete", "trigger pool did not complete within 30s after cancel")
+		return
+	}
+	tot := stats.Total()
+	emit(o, ob, int64(big+last), int64(tot.DroppedIterationCount), false, 0, nw, 0, "burst")
 }
 
 // cancel races with the ticking goroutine: the tick in flight may be refused
@@ -394,8 +430,13 @@ func TestC03Runs(t *testing.T) {
 		conc := int(kit.Pick(r, 1, 2, 8, 32, 100))
 		ob := &obs{live: map[*f1testing.T]bool{}}
 		var idChanged atomic.Int64
+		var counting atomic.Bool
+		counting.Store(true)
 		scenario := func(*f1testing.T) f1testing.RunFn {
 			return func(t *f1testing.T) {
+				if !counting.Load() {
+					return
+				}
 				ob.enter(t)
 				if mode == "file" {
 					// the invocation observes ONE id: read it again after the next stage has started
@@ -440,6 +481,18 @@ func TestC03Runs(t *testing.T) {
 			yaml = fileYaml(limit)
 			cfg.FileArg = dir + "/c03_" + strconv.Itoa(i) + ".yaml"
 			_ = writeFile(cfg.FileArg, yaml)
+		}
+		if i%3 == 1 {
+			// the scenario is a combined one whose value has already been through a run in this
+			// process (a second execution, or one registered under two names): this run stands on
+			// its own - its part of the combined scenario is invoked once per iteration id
+			cfg.Scenario = f1.CombineScenarios(scenario, func(*f1testing.T) f1testing.RunFn { return func(*f1testing.T) {} })
+			counting.Store(false)
+			pre := runkit.Config{Mode: "users", Scenario: cfg.Scenario, Ctx: context.Background(),
+				Opts: options.RunOptions{MaxDuration: time.Second, Concurrency: 2, MaxIterations: 3, IgnoreDropped: true}}
+			_, _, _ = runkit.DoTimeout(pre, 30*time.Second)
+			counting.Store(true)
+			o.Count("scenario", "combined, second run of the same value")
 		}
 		out, hung, dump := runkit.DoTimeout(cfg, 60*time.Second)
 		if hung {
